@@ -268,6 +268,18 @@ def taxa_variants(t, rng, g):
         out.append(("missing", d))
     return out
 
+# hash extremes.  ZERO4: four names found by the author of a seeded change (C09-r6m1): the sums of the FNV-64a hashes of
+# {Aquila,Buteo} and of {Corvus,Dendrocopos} both end in 32 zero bits, so Edge.HashCode of the balanced split (the product)
+# is exactly 0 -- a legal hash value.  COLLIDE: names whose FNV-64a hashes agree on the low 7 bits (same bucket of a
+# 128-bucket index for every tip branch).
+ZERO4 = ["spwk3icgh_Aquila", "spw3pkpkx_Buteo", "spvqpu4o9_Corvus", "spx6fjmhq_Dendrocopos"]
+COLLIDE = ["c126", "c184", "c207", "c1073", "c1091", "c1204", "c1275", "c1349"]
+
+def zero4_trees(g):
+    a, b, c, d = ZERO4
+    shapes = [[[a, b], c, d], [a, b, [c, d]], [[a, b], [c, d]], [c, [a, b], d], [[b, a], [d, c]], [a, b, c, d], [[a, c], b, d]]
+    return [g.decorate(sh, lenmode="all", supmode="none", up_random=True) for sh in shapes]
+
 NONE = [Sym("none")]
 
 def edit_for(t, rng, kind=None):
@@ -504,6 +516,19 @@ def gen(rng, tier):
         out.insert(min(len(out), (i + 1) * step), c)
     # several workers with rejected trees at random positions (the per-tree error must stay per tree)
     parallel_cases(out, rng, g, {"quick": 6, "thorough": 60, "search": 40}[tier], {"quick": 120, "thorough": 300, "search": 400}[tier])
+    # hash extremes: the split with hash code 0, and tip names colliding in the index
+    z = zero4_trees(g)
+    for i in (0, 1, 3):
+        emit(out, "hash-zero", z[i], z[(i + 1) % 4 if (i + 1) % 4 != 2 else 3], rng, flags=[(False, False), (True, False)])
+    emit(out, "hash-zero", z[0], z[5], rng, flags=[(False, False)])
+    emit(out, "hash-zero", z[0], z[6], rng, flags=[(False, False)])
+    emit_stream(out, "hash-zero", z[0], [z[1], z[3], z[5], z[6], clone(z[0])], rng, flags=[(False, False)])
+    for _ in range(2):
+        n = rng.randint(5, 8)
+        mp = dict(zip(["t%d" % i for i in range(n)], COLLIDE[:n]))
+        ct = relabel(unrooted(g, rng, n, maxdeg=4), mp); cu = relabel(unrooted(g, rng, n, maxdeg=4), mp)
+        emit(out, "hash-collide", ct, cu, rng, flags=[(rng.random() < 0.5, False)])
+        emit(out, "hash-collide", ct, shuffle_children(reroot_at(ct, rng), rng), rng, flags=[(False, False)], both_orders=False)
     # minimal witnesses of the design notes, always present
     names = ["a", "b", "c", "d", "e"]
     ref = from_shape(g, [["a", "b"], "c", "d", "e"], rng)            # ((a,b),c,d,e)
